@@ -44,6 +44,7 @@ type config struct {
 	warm          bool // second tree is fully explored first: every Directory comes from the cache
 	explicitMerge bool // MergeDirectoryContents is a letter (so that the fault can precede it)
 	monitor       bool // MergeDirectoryContents gets an access monitor (file system access profiling)
+	corrupt       bool // alphabet has the two 'file blobs are served corrupted from now on' letters
 	maxMods       int  // maximum number of successful local modifications per history
 	depth         map[string]int
 }
@@ -450,6 +451,21 @@ func (o *opctx) readFile(p string, leaf virtual.Leaf, m *mnode) (fired bool) {
 		}
 		return false
 	}
+	// The storage serves this blob corrupted (shorter than its digest says,
+	// or with other bytes): the read may fail, but what it returns
+	// successfully is the blob named by the digest - never a silently
+	// truncated or altered file.
+	corrupted := o.w.cas.corrupt != corruptNone && m.kind == kFile && len(want) > 0
+	if corrupted {
+		if s != virtual.StatusOK {
+			o.logf("  %q: read of a corrupted blob refused with status %d", p, s)
+			return false
+		}
+		if n != len(want) || !eof || !bytes.Equal(buf[:n], want) {
+			o.fail("fidelity/corrupt-blob-served", "%q: the storage serves this blob %s, yet the read SUCCEEDS with %q (eof=%t); the input root says %q", p, map[int]string{corruptShort: "shorter than its digest size", corruptBytes: "with different bytes"}[o.w.cas.corrupt], buf[:n], eof, want)
+			return false
+		}
+	}
 	if s != virtual.StatusOK || n != len(want) || !eof || !bytes.Equal(buf[:n], want) {
 		o.fail("fidelity/content", "%q: read returns status %d, %q (eof=%t), the input root says %q", p, s, buf[:n], eof, want)
 		return false
@@ -461,6 +477,9 @@ func (o *opctx) readFile(p string, leaf virtual.Leaf, m *mnode) (fired bool) {
 			return s == virtual.StatusOK
 		}) {
 			return true
+		}
+		if corrupted && s != virtual.StatusOK {
+			return false
 		}
 		if s != virtual.StatusOK || n != 2 || eof || !bytes.Equal(part, want[1:3]) {
 			o.fail("fidelity/content-partial", "%q: read(off=1,len=2) returns status %d, %q (eof=%t), expected %q", p, s, part[:n], eof, want[1:3])
@@ -687,6 +706,23 @@ func opArm() mc.SeqOp {
 		Name:    "arm: next CAS Get fails",
 		Enabled: func(s any) bool { return s.(*world).cas.fault == faultUnused },
 		Do:      func(c *mc.SeqCtx, s any) { s.(*world).cas.fault = faultArmed },
+	}
+}
+
+// opCorrupt: from now on the storage serves every non-empty file blob
+// corrupted (see fakeCAS.corrupt). It shares the budget of one storage fault
+// per history with the 'next Get fails' letter.
+func opCorrupt(mode int) mc.SeqOp {
+	return mc.SeqOp{
+		Name: map[int]string{
+			corruptShort: "storage: file blobs are served SHORTER than their digest size (no re-validation)",
+			corruptBytes: "storage: file blobs are served with other bytes of the right length (validating CAS buffer)",
+		}[mode],
+		Enabled: func(s any) bool { w := s.(*world); return w.cas.fault == faultUnused && w.cas.corrupt == corruptNone },
+		Do: func(c *mc.SeqCtx, s any) {
+			w := s.(*world)
+			w.cas.corrupt, w.cas.fault = mode, faultSpent
+		},
 	}
 }
 
@@ -1196,7 +1232,7 @@ func key(s any) string {
 	b.WriteByte('|')
 	w.dumpModel(&b, w.model)
 	keys, size, _ := cas.VerifInputrootCacheKeys(w.fetcher)
-	fmt.Fprintf(&b, "|%v/%d|%s|f%d|m%d|%t", keys, size, w.lru.dump(), w.cas.fault, w.mods, w.trees[0].merged)
+	fmt.Fprintf(&b, "|%v/%d|%s|f%d/%d|m%d|%t", keys, size, w.lru.dump(), w.cas.fault, w.cas.corrupt, w.mods, w.trees[0].merged)
 	return b.String()
 }
 
@@ -1282,6 +1318,9 @@ func alphabet(c *compiled, cfg config) []mc.SeqOp {
 		ops = append(ops, opMerge())
 	}
 	ops = append(ops, opArm())
+	if cfg.corrupt {
+		ops = append(ops, opCorrupt(corruptShort), opCorrupt(corruptBytes))
+	}
 	names := []string{"a", "b"}
 	for _, p := range c.dirPaths {
 		ops = append(ops, opList(p))
